@@ -36,6 +36,8 @@ type BuilderCase struct {
 	DefaultCfg bool        `json:"defaultCfg"`
 	Reparsed   bool        `json:"reparsed"` // run the engine on the re-parsed XML (else on the builder's own model)
 	SleepMs    int         `json:"sleepMs"`  // simulated time that passes between two builder calls (0: the clock stands still)
+	Reuse      bool        `json:"reuse"`    // one ProcessBuilder builds all the processes (Out() resets it) instead of a fresh one each
+	ConcBuild  bool        `json:"concBuild"` // every process is built by its own goroutine (own builder), all at the same time
 	Seed       int64       `json:"seed"`
 	viol       vlist
 	failed     bool
@@ -115,6 +117,12 @@ func genC19(d *Draw) Case {
 	c.Reparsed = d.Bool()
 	if d.Bool() {
 		c.SleepMs = 1 + d.N(3)
+	}
+	switch d.N(4) {
+	case 0:
+		c.Reuse = true
+	case 1:
+		c.ConcBuild = np > 1
 	}
 	c.Seed = int64(d.N(1 << 30))
 	c.Picks = drawPicks(d, 32)
@@ -203,7 +211,7 @@ func (c *BuilderCase) build() {
 	if c.DefaultCfg {
 		cfg = schema.DefaultAutoLayoutConfig()
 	}
-	defs, want := buildWithBuilders(c.Procs, cfg, c.SleepMs)
+	defs, want := buildWithBuilders(c.Procs, cfg, c.SleepMs, c.Reuse, c.ConcBuild)
 	c.nacts = 0
 	for _, p := range c.Procs {
 		c.nacts += len(p)
@@ -376,22 +384,35 @@ func (c *BuilderCase) build() {
 
 // buildWithBuilders is the code under test driven the documented way. want lists, per process, the
 // (id, type) chain start, activities..., end as read back from the output of the process builder.
-func buildWithBuilders(procs [][]ActSpec, cfg *schema.AutoLayoutConfig, sleepMs int) (*schema.Definitions, [][][2]string) {
+func buildWithBuilders(procs [][]ActSpec, cfg *schema.AutoLayoutConfig, sleepMs int, reuse, conc bool) (*schema.Definitions, [][][2]string) {
 	tick := func() {
 		if sleepMs > 0 {
 			time.Sleep(time.Duration(sleepMs) * time.Millisecond)
 		}
 	}
 	db := schema.NewDefinitionsBuilder()
-	var want [][][2]string
+	want := make([][][2]string, len(procs))
+	built := make([]*schema.Process, len(procs))
 	nact := 0
-	for _, acts := range procs {
+	base := make([]int, len(procs))
+	for pi, acts := range procs {
+		base[pi] = nact
+		nact += len(acts)
+	}
+	var shared *schema.ProcessBuilder
+	if reuse {
+		shared = schema.NewProcessBuilder()
+	}
+	buildOne := func(pi int) {
+		acts := procs[pi]
 		tick()
-		pb := schema.NewProcessBuilder()
+		pb := shared
+		if pb == nil {
+			pb = schema.NewProcessBuilder()
+		}
 		var objs []schema.ActivityInterface
-		for _, a := range acts {
-			nact++
-			act := newActivity(a.Type, nact)
+		for ai, a := range acts {
+			act := newActivity(a.Type, base[pi]+ai+1)
 			if a.ID != "" {
 				act.SetId(schema.NewStringP(a.ID))
 			}
@@ -419,7 +440,28 @@ func buildWithBuilders(procs [][]ActSpec, cfg *schema.AutoLayoutConfig, sleepMs 
 				chain = append(chain, [2]string{*s, "end"})
 			}
 		}
-		want = append(want, chain)
+		want[pi] = chain
+		built[pi] = p
+	}
+	if conc && !reuse {
+		// several clients build their processes at the same time, each with a builder of its own
+		done := make(chan int, len(procs))
+		for pi := range procs {
+			pi := pi
+			go func() {
+				buildOne(pi)
+				done <- pi
+			}()
+		}
+		for range procs {
+			<-done
+		}
+	} else {
+		for pi := range procs {
+			buildOne(pi)
+		}
+	}
+	for _, p := range built {
 		tick()
 		db.AddProcess(*p)
 	}
@@ -674,6 +716,8 @@ func checkC19(cc Case, r *simrt.Result) *Outcome {
 	probe(o, "default-layout-config", c.DefaultCfg)
 	probe(o, "engine-ran-on-reparsed-output", c.Reparsed && !c.failed)
 	probe(o, "clock-stands-still-between-builder-calls", c.SleepMs == 0)
+	probe(o, "one-builder-reused-for-several-processes", c.Reuse && len(c.Procs) > 1)
+	probe(o, "processes-built-by-concurrent-goroutines", c.ConcBuild)
 	if c.failed {
 		o.Viol = vl.v
 		o.Sample = map[string]any{"procs": c.Procs, "run": "not started"}
